@@ -2,11 +2,14 @@
    In the model a search is a Gallina function of (position, history prefix, TT, poll predicate, stop schedule) -- determinism is free;
    the content is what it may depend on.  Proved: clearing the TT leaves nothing retrievable (C08_clear); the search never changes the
    history it was given (C17), so consecutive searches see the same history; a depth-limited search with no input pending never
-   observes a stop (stopping stays false when no poll reports one).
+   observes a stop (stopping stays false when no poll reports one); in the UCI main-loop model, `ucinewgame` + `position P`
+   from ANY state equals `position P` from the initial state (C18_ucinewgame_restores_fresh).
    Decided per run on the real engine: every scenario search is repeated in a fresh process and must print the same lines;
    scripted UCI sessions `H; ucinewgame; position P; go depth d` are compared with a fresh process running `position P; go depth d`. *)
 From Coq Require Import NArith ZArith List Bool.
-From JV Require Import Gen.Consts Model.Chess Model.Eval Model.TT Model.Search Model.SearchChess Proofs.TTProofs Proofs.SearchFrame Proofs.SearchBalance.
+From Coq Require Import String.
+From JV Require Import Gen.Consts Model.Chess Model.Eval Model.TT Model.Search Model.SearchChess Model.Fen Model.Uci Proofs.TTProofs Proofs.SearchFrame Proofs.SearchBalance Proofs.UciLoopProofs.
+Import ListNotations.
 
 Theorem C18_clear : forall ops h d a b q, probe (table (Clr :: ops)) h d a b q = None.
 Proof. exact clear_nothing. Qed.
@@ -17,5 +20,16 @@ Theorem C18_never_stopped_without_input : forall pollp bypass g depth t rt ri,
   match chess_search pollp (fun _ => false) bypass g depth t rt ri with SDone _ e _ => stopping e = false | SFuel => False end.
 Proof. intros. apply search_never_stopped. reflexivity. Qed.
 
+(* in the model of the UCI main loop: whatever state the command history left (position, table, game history), `ucinewgame`
+   followed by an accepted `position` command puts the engine into exactly the state a freshly started engine is in after that
+   `position` command -- so everything it does afterwards (searches included: they are functions of that state) is identical *)
+Theorem C18_ucinewgame_restores_fresh : forall extra u P input input' g rep,
+  trim P <> ""%string -> lower_str (first_token (trim P)) = "position"%string -> rest_tokens (trim P) <> [] ->
+  parse_position (skip 9 (trim P)) = FOk (g, rep) ->
+  let '(u1, _, _, _, _) := uci_step extra u "ucinewgame" input in
+  uci_step extra u1 P input' = uci_step extra init_ustate P input'.
+Proof. exact ucinewgame_then_position_is_fresh. Qed.
+
 Print Assumptions C18_clear.
+Print Assumptions C18_ucinewgame_restores_fresh.
 Print Assumptions C18_never_stopped_without_input.
